@@ -1261,9 +1261,387 @@ Proof.
   rewrite Hnow in K3, K4. split; [exact K1|]. split; [exact K2|]. split; [exact K3|exact K4].
 Qed.
 
-(* ---------- non-vacuity: the hypotheses of the theorems are met by reachable states ---------- *)
 Definition ex_cfg (p : policy) (m : nat) (t : option Z) (sh : bool) : cfg :=
   {| pol := p; max_size := m; ttl := t; shared := sh |}.
+
+(* ---------- general overlapping misses: the entry is the one stored last ---------- *)
+Lemma last_stored_wins c evs sid k v t :
+  latest_of (trace c (init c) evs) sid k = Some (v, t) ->
+  forall a, lookup k (stores (final c (init c) evs) sid) = Some a -> e_val a = v /\ e_time a = t.
+Proof.
+  intros H a Ha. rewrite refines_map in Ha. apply spec_latest in Ha. rewrite Ha in H.
+  inversion H; subst. split; reflexivity.
+Qed.
+
+(* ---------- the ghosts are functions of the history ---------- *)
+Definition at_key (sid : nat) (k : Z) (sid' : nat) (k' : Z) : bool := Nat.eqb sid' sid && (k' =? k).
+
+Definition hits_on (sid : nat) (k : Z) (o : obs) : bool :=
+  match o_hit o with Some (s', k', _) => at_key sid k s' k' | None => false end.
+Definition stores_on (sid : nat) (k : Z) (o : obs) : bool :=
+  match o_stored o with Some (s', k', _, _) => at_key sid k s' k' | None => false end.
+Definition leaves (sid : nat) (k : Z) (o : obs) : bool :=
+  match o_victim o with Some (s', k') => at_key sid k s' k' | None => false end ||
+  match o_exp o with Some (s', k') => at_key sid k s' k' | None => false end.
+(* a use of the entry: a lookup that found it, or a response stored under its key *)
+Definition uses (sid : nat) (k : Z) (o : obs) : bool := hits_on sid k o || stores_on sid k o.
+
+Lemma at_key_true sid k sid' k' : at_key sid k sid' k' = true <-> sid' = sid /\ k' = k.
+Proof.
+  unfold at_key. rewrite Bool.andb_true_iff, Nat.eqb_eq, Z.eqb_eq. reflexivity.
+Qed.
+
+Lemma aset_at A sid0 k0 x sid k :
+  aset A sid0 k0 x sid k = if at_key sid0 k0 sid k then x else A sid k.
+Proof. reflexivity. Qed.
+
+Lemma at_key_sym sid k sid' k' : at_key sid k sid' k' = at_key sid' k' sid k.
+Proof.
+  unfold at_key. rewrite (Nat.eqb_sym sid' sid), (Z.eqb_sym k' k). reflexivity.
+Qed.
+
+(* one step of the reference cache, seen from one (store, key) *)
+Lemma spec_step_at na o sid k :
+  snd (spec_step na o) sid k =
+  let A2 := if leaves sid k o then None else snd na sid k in
+  let A3 := if hits_on sid k o then option_map (fun a => bumped k a (fst na)) A2 else A2 in
+  if stores_on sid k o
+  then match o_stored o with
+       | Some (_, _, v, t) => Some (stored_entry A3 k v t (fst na))
+       | None => None
+       end
+  else A3.
+Proof.
+  unfold spec_step, leaves, hits_on, stores_on. cbn [snd fst].
+  set (A := snd na). set (n := fst na).
+  set (A1 := match o_victim o with Some (s', x) => aset A s' x None | None => A end).
+  assert (H1 : forall s1 k1, A1 s1 k1 =
+            if match o_victim o with Some (s', k') => at_key s1 k1 s' k' | None => false end
+            then None else A s1 k1).
+  { intros s1 k1. unfold A1. destruct (o_victim o) as [[s' x]|]; [|reflexivity].
+    rewrite aset_at, at_key_sym. reflexivity. }
+  set (A2 := match o_exp o with Some (s', x) => aset A1 s' x None | None => A1 end).
+  assert (H2 : forall s1 k1, A2 s1 k1 =
+            if match o_victim o with Some (s', k') => at_key s1 k1 s' k' | None => false end ||
+               match o_exp o with Some (s', k') => at_key s1 k1 s' k' | None => false end
+            then None else A s1 k1).
+  { intros s1 k1. unfold A2. destruct (o_exp o) as [[s' x]|].
+    - rewrite aset_at, at_key_sym, H1.
+      destruct (at_key s1 k1 s' x); [rewrite Bool.orb_true_r; reflexivity|].
+      rewrite Bool.orb_false_r. reflexivity.
+    - rewrite H1, Bool.orb_false_r. reflexivity. }
+  set (A3 := match o_hit o with
+             | Some (s', k', _) => match A2 s' k' with
+                                   | Some a => aset A2 s' k' (Some (bumped k' a n))
+                                   | None => A2 end
+             | None => A2 end).
+  assert (H3 : A3 sid k =
+            if match o_hit o with Some (s', k', _) => at_key sid k s' k' | None => false end
+            then option_map (fun a => bumped k a n) (A2 sid k) else A2 sid k).
+  { unfold A3. destruct (o_hit o) as [[[s' k'] v']|]; [|reflexivity].
+    destruct (at_key sid k s' k') eqn:E.
+    - apply at_key_true in E. destruct E as [-> ->].
+      destruct (A2 sid k) as [a|] eqn:Ea; cbn [option_map].
+      + rewrite aset_same. reflexivity.
+      + exact Ea.
+    - destruct (A2 s' k') as [a|]; [|reflexivity].
+      rewrite aset_at, at_key_sym, E. reflexivity. }
+  destruct (o_stored o) as [[[[s' k'] v] t]|].
+  - rewrite aset_at, at_key_sym.
+    destruct (at_key sid k s' k') eqn:E.
+    + apply at_key_true in E. destruct E as [-> ->]. rewrite H3, H2. reflexivity.
+    + rewrite H3, H2. reflexivity.
+  - rewrite H3, H2. reflexivity.
+Qed.
+
+(* a hit stores nothing (true of every observation the model makes) *)
+Definition wf_obs (o : obs) : Prop := o_hit o <> None -> o_stored o = None.
+
+Lemma step_wf c s e : wf_obs (snd (step c s e)).
+Proof. unfold wf_obs. step_cases c s e; intros H; try reflexivity; exfalso; apply H; reflexivity. Qed.
+
+Lemma trace_wf c evs : forall s, Forall wf_obs (trace c s evs).
+Proof.
+  induction evs as [|e t IH]; intros s; cbn [trace]; constructor; [apply step_wf|apply IH].
+Qed.
+
+Lemma spec_snoc tr o : spec (tr ++ [o]) = spec_step (spec tr) o.
+Proof. unfold spec. rewrite fold_left_app. reflexivity. Qed.
+
+Definition ghost_ok (tr : list obs) (sid : nat) (k : Z) (a : entry) : Prop :=
+  exists ni nu : nat,
+    e_ins a = Z.of_nat ni /\ e_used a = Z.of_nat nu /\ (ni <= nu)%nat /\ (nu < length tr)%nat /\
+    (exists o, nth_error tr ni = Some o /\ stores_on sid k o = true /\
+               (snd (spec (firstn ni tr)) sid k = None \/ leaves sid k o = true)) /\
+    (forall o, In o (skipn (S ni) tr) -> leaves sid k o = false) /\
+    e_freq a = 1 + Z.of_nat (length (filter (uses sid k) (skipn (S ni) tr))) /\
+    (exists o, nth_error tr nu = Some o /\ uses sid k o = true) /\
+    (forall o, In o (skipn (S nu) tr) -> uses sid k o = false).
+
+Lemma skipn_snoc {A} (n : nat) (l : list A) x : (n <= length l)%nat -> skipn n (l ++ [x]) = skipn n l ++ [x].
+Proof.
+  intros H. rewrite skipn_app. replace (n - length l)%nat with 0%nat by lia. reflexivity.
+Qed.
+
+Lemma firstn_snoc {A} (n : nat) (l : list A) x : (n <= length l)%nat -> firstn n (l ++ [x]) = firstn n l.
+Proof.
+  intros H. rewrite firstn_app. replace (n - length l)%nat with 0%nat by lia.
+  cbn [firstn]. apply app_nil_r.
+Qed.
+
+Lemma nth_error_snoc_lt {A} (n : nat) (l : list A) x : (n < length l)%nat -> nth_error (l ++ [x]) n = nth_error l n.
+Proof. intros H. apply nth_error_app1. exact H. Qed.
+
+Lemma nth_error_snoc_eq {A} (l : list A) x : nth_error (l ++ [x]) (length l) = Some x.
+Proof. rewrite nth_error_app2 by lia. rewrite Nat.sub_diag. reflexivity. Qed.
+
+Lemma skipn_all_snoc {A} (l : list A) x : skipn (S (length l)) (l ++ [x]) = [].
+Proof. apply skipn_all2. rewrite app_length. cbn. lia. Qed.
+
+(* the entry as it is after an observation that neither removes nor touches it *)
+Lemma ghost_keep tr o sid k a :
+  ghost_ok tr sid k a -> leaves sid k o = false -> uses sid k o = false -> ghost_ok (tr ++ [o]) sid k a.
+Proof.
+  intros (ni & nu & Hi & Hu & Hle & Hlt & (oi & Hoi & Hsi & Hbef) & Hlv & Hf & (ou & Hou & Huu) & Hlast) HL HU.
+  exists ni, nu. rewrite app_length. cbn [length].
+  split; [exact Hi|]. split; [exact Hu|]. split; [exact Hle|]. split; [lia|].
+  split.
+  { exists oi. rewrite nth_error_snoc_lt by lia. split; [exact Hoi|]. split; [exact Hsi|].
+    rewrite firstn_snoc by lia. exact Hbef. }
+  split.
+  { intros o' Ho'. rewrite skipn_snoc in Ho' by lia. apply in_app_iff in Ho'.
+    destruct Ho' as [Ho'|[<-|[]]]; [apply Hlv; exact Ho'|exact HL]. }
+  split.
+  { rewrite skipn_snoc by lia. rewrite filter_app. cbn [filter]. rewrite HU, app_nil_r. exact Hf. }
+  split.
+  { exists ou. rewrite nth_error_snoc_lt by lia. split; assumption. }
+  intros o' Ho'. rewrite skipn_snoc in Ho' by lia. apply in_app_iff in Ho'.
+  destruct Ho' as [Ho'|[<-|[]]]; [apply Hlast; exact Ho'|exact HU].
+Qed.
+
+(* ... after an observation that uses it (hit or update): frequency + 1, last use = this observation *)
+Lemma ghost_use tr o sid k a a' :
+  ghost_ok tr sid k a -> leaves sid k o = false -> uses sid k o = true ->
+  e_ins a' = e_ins a -> e_used a' = Z.of_nat (length tr) -> e_freq a' = e_freq a + 1 ->
+  ghost_ok (tr ++ [o]) sid k a'.
+Proof.
+  intros (ni & nu & Hi & Hu & Hle & Hlt & (oi & Hoi & Hsi & Hbef) & Hlv & Hf & _ & _) HL HU Ei Eu Ef.
+  exists ni, (length tr). rewrite app_length. cbn [length].
+  split; [congruence|]. split; [exact Eu|]. split; [lia|]. split; [lia|].
+  split.
+  { exists oi. rewrite nth_error_snoc_lt by lia. split; [exact Hoi|]. split; [exact Hsi|].
+    rewrite firstn_snoc by lia. exact Hbef. }
+  split.
+  { intros o' Ho'. rewrite skipn_snoc in Ho' by lia. apply in_app_iff in Ho'.
+    destruct Ho' as [Ho'|[<-|[]]]; [apply Hlv; exact Ho'|exact HL]. }
+  split.
+  { rewrite skipn_snoc by lia. rewrite filter_app. cbn [filter]. rewrite HU, app_length. cbn [length].
+    rewrite Ef, Hf. lia. }
+  split.
+  { exists o. rewrite nth_error_snoc_eq. split; [reflexivity|exact HU]. }
+  rewrite skipn_all_snoc. intros o' [].
+Qed.
+
+(* ... after the observation that makes the key present *)
+Lemma ghost_new tr o sid k a' :
+  stores_on sid k o = true ->
+  (snd (spec tr) sid k = None \/ leaves sid k o = true) ->
+  e_ins a' = Z.of_nat (length tr) -> e_used a' = Z.of_nat (length tr) -> e_freq a' = 1 ->
+  ghost_ok (tr ++ [o]) sid k a'.
+Proof.
+  intros HS Hbef Ei Eu Ef. exists (length tr), (length tr). rewrite app_length. cbn [length].
+  split; [exact Ei|]. split; [exact Eu|]. split; [lia|]. split; [lia|].
+  split.
+  { exists o. rewrite nth_error_snoc_eq. split; [reflexivity|]. split; [exact HS|].
+    rewrite firstn_app, Nat.sub_diag, firstn_all. cbn [firstn]. rewrite app_nil_r. exact Hbef. }
+  rewrite skipn_all_snoc. cbn [filter length].
+  split; [intros o' []|]. split; [rewrite Ef; reflexivity|].
+  split; [|intros o' []].
+  exists o. rewrite nth_error_snoc_eq. split; [reflexivity|].
+  unfold uses. rewrite HS. apply Bool.orb_true_r.
+Qed.
+
+Lemma ghosts tr : Forall wf_obs tr ->
+  fst (spec tr) = Z.of_nat (length tr) /\
+  forall sid k a, snd (spec tr) sid k = Some a -> ghost_ok tr sid k a.
+Proof.
+  induction tr as [|o tr IH] using rev_ind; intros Hwf.
+  - split; [reflexivity|]. intros sid k a H. discriminate.
+  - apply Forall_app in Hwf. destruct Hwf as [Hwf Ho]. inversion Ho as [|? ? Hwo _]; subst.
+    destruct (IH Hwf) as [Hn HG]. clear IH. rewrite spec_snoc. split.
+    { unfold spec_step. cbn [fst]. rewrite Hn, app_length. cbn [length]. lia. }
+    intros sid k a. rewrite spec_step_at. cbn zeta. rewrite Hn.
+    destruct (stores_on sid k o) eqn:ES.
+    + (* a response is stored under this key *)
+      assert (EH : hits_on sid k o = false).
+      { unfold hits_on. destruct (o_hit o) as [[[s' k'] v']|] eqn:E; [|reflexivity].
+        unfold stores_on in ES. rewrite Hwo in ES by congruence. discriminate. }
+      rewrite EH. destruct (o_stored o) as [[[[s' k'] v] t]|]; [|discriminate].
+      intros H; inversion H; subst; clear H.
+      destruct (leaves sid k o) eqn:EL.
+      * cbn [stored_entry]. apply ghost_new; try reflexivity; [exact ES|right; exact EL].
+      * destruct (snd (spec tr) sid k) as [a0|] eqn:Ea; cbn [stored_entry].
+        -- apply (ghost_use tr o sid k a0); try reflexivity; [apply HG; exact Ea|exact EL|].
+           unfold uses. rewrite ES. apply Bool.orb_true_r.
+        -- apply ghost_new; try reflexivity; [exact ES|left; exact Ea].
+    + destruct (leaves sid k o) eqn:EL.
+      * destruct (hits_on sid k o); discriminate.
+      * destruct (hits_on sid k o) eqn:EH.
+        -- destruct (snd (spec tr) sid k) as [a0|] eqn:Ea; cbn [option_map]; [|discriminate].
+           intros H; inversion H; subst; clear H.
+           apply (ghost_use tr o sid k a0); try reflexivity; [apply HG; exact Ea|exact EL|].
+           unfold uses. rewrite EH. reflexivity.
+        -- intros H. apply ghost_keep; [apply HG; exact H|exact EL|].
+           unfold uses. rewrite EH, ES. reflexivity.
+Qed.
+
+Lemma ghosts_of_history c evs sid k a :
+  snd (spec (trace c (init c) evs)) sid k = Some a -> ghost_ok (trace c (init c) evs) sid k a.
+Proof. intros H. apply (ghosts _ (trace_wf c evs (init c))). exact H. Qed.
+
+(* the three readings the victim theorems use *)
+Lemma freq_counts_uses c evs sid k a :
+  snd (spec (trace c (init c) evs)) sid k = Some a ->
+  e_freq a = 1 + Z.of_nat (length (filter (uses sid k)
+                 (skipn (S (Z.to_nat (e_ins a))) (trace c (init c) evs)))).
+Proof.
+  intros H. destruct (ghosts_of_history c evs sid k a H) as (ni & nu & Hi & _ & _ & _ & _ & _ & Hf & _).
+  rewrite Hi, Nat2Z.id. exact Hf.
+Qed.
+
+Lemma trace_length c evs : forall s, length (trace c s evs) = length evs.
+Proof.
+  induction evs as [|e t IH]; intros s; cbn [trace length]; [reflexivity|]. rewrite IH. reflexivity.
+Qed.
+
+Lemma ins_is_insertion c evs sid k a :
+  snd (spec (trace c (init c) evs)) sid k = Some a ->
+  0 <= e_ins a < Z.of_nat (length evs) /\
+  (exists o, nth_error (trace c (init c) evs) (Z.to_nat (e_ins a)) = Some o /\ stores_on sid k o = true /\
+     (snd (spec (firstn (Z.to_nat (e_ins a)) (trace c (init c) evs))) sid k = None \/ leaves sid k o = true)) /\
+  forall o, In o (skipn (S (Z.to_nat (e_ins a))) (trace c (init c) evs)) -> leaves sid k o = false.
+Proof.
+  intros H. destruct (ghosts_of_history c evs sid k a H) as (ni & nu & Hi & _ & Hle & Hlt & Hins & Hlv & _).
+  rewrite Hi, Nat2Z.id.
+  rewrite trace_length in Hlt. split; [lia|]. split; [exact Hins|exact Hlv].
+Qed.
+
+Lemma used_is_last_use c evs sid k a :
+  snd (spec (trace c (init c) evs)) sid k = Some a ->
+  e_ins a <= e_used a /\
+  (exists o, nth_error (trace c (init c) evs) (Z.to_nat (e_used a)) = Some o /\ uses sid k o = true) /\
+  forall o, In o (skipn (S (Z.to_nat (e_used a))) (trace c (init c) evs)) -> uses sid k o = false.
+Proof.
+  intros H. destruct (ghosts_of_history c evs sid k a H) as (ni & nu & Hi & Hu & Hle & _ & _ & _ & _ & Huse & Hlast).
+  rewrite Hu, Nat2Z.id. split; [lia|]. split; [exact Huse|exact Hlast].
+Qed.
+
+(* ---------- what run_script prints is a rendering of `trace` and `final` ---------- *)
+(* an event changes the state of no caller but its own *)
+Lemma cs_frame c s e j : ev_caller e <> Some j -> cs (step_st c s e) j = cs s j.
+Proof.
+  intros H. step_cases c s e; try reflexivity;
+    (rewrite upd_other; [reflexivity|intros ->; apply H; reflexivity]).
+Qed.
+
+Definition running_at (s : st) (i : nat) : bool := is_running (cs s i).
+
+Lemma count_frame (f g : nat -> bool) (l : list nat) :
+  (forall j, In j l -> f j = g j) -> length (filter f l) = length (filter g l).
+Proof.
+  induction l as [|a t IH]; intros H; cbn [filter]; [reflexivity|].
+  rewrite (H a) by (left; reflexivity). destruct (g a); cbn [length]; rewrite IH; try reflexivity;
+    intros j Hj; apply H; right; exact Hj.
+Qed.
+
+Lemma count_one (f g : nat -> bool) (i : nat) (l : list nat) : NoDup l -> In i l ->
+  (forall j, In j l -> j <> i -> f j = g j) ->
+  Z.of_nat (length (filter f l)) = Z.of_nat (length (filter g l)) + b2z (f i) - b2z (g i).
+Proof.
+  induction l as [|a t IH]; intros Hnd Hin H; [destruct Hin|].
+  inversion Hnd as [|? ? Ha Ht]; subst. cbn [filter].
+  destruct Hin as [->|Hin].
+  - assert (E : length (filter f t) = length (filter g t)).
+    { apply count_frame. intros j Hj. apply H; [right; exact Hj|]. intros ->. exact (Ha Hj). }
+    destruct (f i), (g i); cbn [length b2z]; lia.
+  - assert (Hai : a <> i) by (intros ->; exact (Ha Hin)).
+    assert (Ea : f a = g a) by (apply H; [left; reflexivity|exact Hai]).
+    specialize (IH Ht Hin (fun j Hj Hne => H j (or_intror Hj) Hne)).
+    rewrite Ea. destruct (g a); cbn [length]; lia.
+Qed.
+
+Lemma inflight_step c n s e :
+  inflight (step_st c s e) n = inflight s n + infl_delta n s (step_st c s e) e.
+Proof.
+  unfold inflight, infl_delta.
+  destruct (ev_caller e) as [i|] eqn:Ec.
+  - destruct (Nat.ltb_spec i n) as [Hlt|Hge].
+    + rewrite (count_one (fun j => is_running (cs (step_st c s e) j)) (fun j => is_running (cs s j)) i).
+      * lia.
+      * apply seq_NoDup.
+      * apply in_seq. lia.
+      * intros j _ Hne. rewrite cs_frame; [reflexivity|]. rewrite Ec. congruence.
+    + rewrite (count_frame (fun j => is_running (cs (step_st c s e) j)) (fun j => is_running (cs s j))); [lia|].
+      intros j Hj. apply in_seq in Hj. rewrite cs_frame; [reflexivity|]. rewrite Ec. intros E; inversion E; lia.
+  - rewrite (count_frame (fun j => is_running (cs (step_st c s e) j)) (fun j => is_running (cs s j))); [lia|].
+    intros j _. rewrite cs_frame; [reflexivity|]. rewrite Ec. discriminate.
+Qed.
+
+(* record j of the trace printed for a history: observation j and the state after event j *)
+Definition record (c : cfg) (n : nat) (s : st) (evs : list ev) (j : nat) : list Z :=
+  let s' := final c s (firstn (S j) evs) in
+  render (inflight s' n) (nth j (trace c s evs) no_obs) s'.
+
+Lemma run_evs_records c n evs : forall s,
+  run_evs c n s (inflight s n) evs = concat (map (record c n s evs) (seq 0 (length evs))).
+Proof.
+  induction evs as [|e t IH]; intros s; [reflexivity|].
+  cbn [run_evs length]. destruct (step c s e) as [s' o] eqn:Es.
+  assert (Hs' : s' = step_st c s e) by (unfold step_st; rewrite Es; reflexivity).
+  assert (Ho : o = snd (step c s e)) by (rewrite Es; reflexivity).
+  cbn [seq]. rewrite <- seq_shift. cbn [map concat]. rewrite map_map.
+  replace (inflight s n + infl_delta n s s' e) with (inflight s' n)
+    by (rewrite Hs'; apply inflight_step).
+  rewrite IH. f_equal.
+  - unfold record. cbn [firstn final fold_left trace nth]. rewrite <- Hs', <- Ho. reflexivity.
+  - f_equal. apply map_ext. intros j. unfold record.
+    cbn [firstn trace nth]. unfold final. cbn [fold_left]. rewrite <- Hs'. reflexivity.
+Qed.
+
+Lemma inflight_init c n : inflight (init c) n = 0.
+Proof.
+  unfold inflight. cbn [init cs]. induction (seq 0 n) as [|a t IH]; [reflexivity|exact IH].
+Qed.
+
+Lemma run_script_records sc :
+  let c := cfg_of sc in
+  let n := Z.to_nat (zn sc 4) in
+  let m := Z.to_nat (zn sc 5) in
+  let evs := evs_of n (chunk3 (firstn (3 * m) (skipn 6 sc))) (skipn (3 * m) (skipn 6 sc)) in
+  run_script sc = concat (map (record c n (init c) evs) (seq 0 (length evs))).
+Proof.
+  cbv zeta. unfold run_script. rewrite <- (inflight_init (cfg_of sc) (Z.to_nat (zn sc 4))) at 1.
+  apply run_evs_records.
+Qed.
+
+(* ---------- the age of a value when it is DELIVERED is not bounded by the TTL ---------- *)
+(* (C10_hit_latest bounds the age at the lookup; the future of a hit keeps the value it found) *)
+Lemma delivery_age_unbounded D : 0 <= D ->
+  let c := ex_cfg Lru 1 (Some 0) false in
+  let evs := [Call 0 0 5; Complete 0 (OOk 7); Poll 0 (-1); Call 1 0 5; Advance D] in
+  o_stored (snd (step c (final c (init c) (firstn 2 evs)) (Poll 0 (-1)))) = Some (0%nat, 5, 7, 0) /\
+  now (final c (init c) evs) = D /\
+  o_r (snd (step c (final c (init c) evs) (Poll 1 (-1)))) = 1 /\
+  o_val (snd (step c (final c (init c) evs) (Poll 1 (-1)))) = 7.
+Proof.
+  intros HD. cbv zeta. split; [vm_compute; reflexivity|].
+  split; [|split].
+  - cbn. rewrite Z.max_r by exact HD. reflexivity.
+  - cbn. reflexivity.
+  - cbn. reflexivity.
+Qed.
+
+(* ---------- non-vacuity: the hypotheses of the theorems are met by reachable states ---------- *)
 
 (* a stored value is served at exactly the TTL and found expired one millisecond later *)
 Example ex_hit_at_ttl :
@@ -1324,6 +1702,24 @@ Example ex_concurrent :
     = Some (0%nat, 1, 12).
 Proof. vm_compute. repeat split. Qed.
 
+(* three misses on one key in flight at once, completed and polled at different instants:
+   the store holds what was stored last (value and instant), whatever came before *)
+Example ex_overlapping_three :
+  let c := ex_cfg Lru 2 (Some 50) true in
+  let evs := [Call 0 0 1; Call 1 1 1; Call 2 0 1; Complete 2 (OOk 30); Poll 2 (-1); Advance 3;
+              Complete 0 (OOk 10); Poll 0 (-1); Advance 4; Complete 1 (OOk 20); Poll 1 (-1)] in
+  latest_of (trace c (init c) evs) 0%nat 1 = Some (20, 7) /\
+  option_map (fun a => (e_val a, e_time a)) (lookup 1 (stores (final c (init c) evs) 0%nat)) = Some (20, 7).
+Proof. vm_compute. split; reflexivity. Qed.
+
+(* the ghosts of a reachable entry: key 0 of ex_fill was inserted by observation 2, used last by
+   observation 6 (a hit) and has frequency 2 = 1 + one use after the insertion *)
+Example ex_ghosts :
+  let c := ex_cfg Lfu 2 None false in
+  option_map (fun a => (e_ins a, e_used a, e_freq a)) (snd (spec (trace c (init c) ex_fill)) 0%nat 0) = Some (2, 6, 2) /\
+  length (filter (uses 0 0) (skipn 3 (trace c (init c) ex_fill))) = 1%nat.
+Proof. vm_compute. split; reflexivity. Qed.
+
 (* errors and panics: reachable, and nothing is served afterwards *)
 Example ex_error :
   let c := ex_cfg Lfu 1 None false in
@@ -1341,21 +1737,34 @@ Example ex_private_shared :
 Proof. vm_compute. repeat split. Qed.
 
 (* the script interface reproduces traces recorded from the implementation
-   (harness/src/bin/c10.rs on corpus scripts 1 and 4 of gen/c10.py; 4 = LFU tie, oracle appended) *)
+   (harness/src/bin/c10.rs on corpus scripts 1, 4 and 9 of gen/c10.py; 4 = LFU tie, oracle appended;
+    9 = ttl 1500 us: served at 1500 us, expired at 1501 us and at 1900 us) *)
 Example ex_recorded_ttl :
   run_script [0; 2; 20; 0; 4; 9; 0; 0; 3; 4; 0; 7; 1; 0; 0; 3; 20; 0; 0; 1; 3; 1; 1; 0; 3; 1; 0;
               0; 2; 3; 1; 2; 0; -1; -1; -1; -1; -1; -1; -1; 3; -1]
-  = [-1; 0; 1; 1; 2; 0; 0; -1; 0; 0; 1; 0; 0; 0; 1; 7; 0; 0; 0; 8; 0; -1; 0; 0; 0; 0; 8; 0;
-     -1; 0; 0; 0; 1; 8; 0; 1; 7; 0; 0; 0; 8; 0; -1; 0; 0; 0; 0; 8; 0; -1; 0; 1; 1; 2; 0; 0;
-     0; 0; 0; 1; 0; 0; 0].
+  = [-1; 0; 1; 1; 2; 0; 0; 0; 0; -1; 0; 0; 1; 0; 0; 0; 0; 0; 1; 7; 0; 0; 0; 8; 0; 8; 0;
+     -1; 0; 0; 0; 0; 8; 0; 8; 0; -1; 0; 0; 0; 1; 8; 0; 8; 0; 1; 7; 0; 0; 0; 8; 0; 8; 0;
+     -1; 0; 0; 0; 0; 8; 0; 8; 0; -1; 0; 1; 1; 2; 0; 0; 0; 0; 0; 0; 0; 1; 0; 0; 0; 0; 0].
 Proof. vm_compute. reflexivity. Qed.
 
 Example ex_recorded_lfu_tie :
   run_script [1; 2; -1; 0; 5; 13; 0; 0; 0; 4; 0; 1; 1; 0; 0; 0; 1; 1; 4; 1; 2; 1; 1; 0; 0; 2; 2;
               4; 2; 3; 1; 2; 0; 0; 3; 0; 1; 3; 0; 0; 4; 1; 1; 4; 0;
-              -1; -1; -1; -1; -1; -1; -1; -1; 0; -1; -1; -1; -1]
-  = [-1; 0; 1; 1; 2; 0; 0; -1; 0; 0; 1; 0; 0; 0; 1; 1; 0; 0; 0; 1; 0; -1; 0; 1; 1; 2; 1; 0;
-     -1; 0; 0; 1; 0; 1; 0; 1; 2; 0; 0; 0; 3; 0; -1; 0; 1; 1; 2; 3; 0; -1; 0; 0; 1; 0; 3; 0;
-     1; 3; 0; 0; 4; 6; 0; -1; 0; 1; 1; 2; 6; 0; 0; 0; 0; 1; 0; 6; 0; -1; 0; 0; 1; 1; 6; 0;
-     1; 2; 0; 1; 0; 6; 0].
+              -1; -1; -1; -1; -1; -1; -1; -1; 1; -1; -1; -1; -1]
+  = [-1; 0; 1; 1; 2; 0; 0; 0; 0; -1; 0; 0; 1; 0; 0; 0; 0; 0; 1; 1; 0; 0; 0; 1; 0; 1; 0;
+     -1; 0; 1; 1; 2; 1; 0; 1; 0; -1; 0; 0; 1; 0; 1; 0; 1; 0; 1; 2; 0; 0; 0; 3; 0; 3; 0;
+     -1; 0; 1; 1; 2; 3; 0; 3; 0; -1; 0; 0; 1; 0; 3; 0; 3; 0; 1; 3; 0; 0; 4; 5; 0; 5; 0;
+     -1; 0; 0; 0; 1; 5; 0; 5; 0; 1; 1; 0; 0; 0; 5; 0; 5; 0; -1; 0; 1; 1; 2; 5; 0; 5; 0;
+     0; 0; 0; 1; 0; 5; 0; 5; 0].
+Proof. vm_compute. reflexivity. Qed.
+
+Example ex_recorded_submilli_ttl :
+  run_script [0; 2; 1500; 4; 4; 13; 5; 0; 3; 4; 0; 7; 1; 0; 0; 6; 1500; 0; 5; 1; 3; 1; 1; 0; 6; 1; 0;
+              5; 2; 3; 4; 2; 8; 1; 2; 0; 6; 1900; 0; 5; 3; 3; 1; 3; 0;
+              -1; -1; -1; -1; -1; -1; -1; 3; -1; -1; -1; 3; -1]
+  = [-1; 0; 1; 1; 2; 0; 0; 0; 0; -1; 0; 0; 1; 0; 0; 0; 0; 0; 1; 7; 0; 0; 0; 8; 0; 8; 0;
+     -1; 0; 0; 0; 0; 8; 0; 8; 0; -1; 0; 0; 0; 1; 8; 0; 8; 0; 1; 7; 0; 0; 0; 8; 0; 8; 0;
+     -1; 0; 0; 0; 0; 8; 0; 8; 0; -1; 0; 1; 1; 2; 0; 0; 0; 0; -1; 0; 0; 1; 0; 0; 0; 0; 0;
+     1; 8; 0; 0; 0; 8; 0; 8; 0; -1; 0; 0; 0; 0; 8; 0; 8; 0; -1; 0; 1; 1; 2; 0; 0; 0; 0;
+     0; 0; 0; 1; 0; 0; 0; 0; 0].
 Proof. vm_compute. reflexivity. Qed.
